@@ -5,12 +5,12 @@ About the model of `i64 as f64`, `Value::from_float`, `Value::from_string` / `st
 and the integer `Add/Sub/Mul` of `Value` (src/data.rs).  Exact numeric values are core `Dyadic`
 rationals: `F64.val?` for doubles, `Value.num` for values (AgProofs/Lemmas/*).
 
-Findings recorded here as theorems (the full statements are false of the code as it stands):
-* `from_float` turns every double with 0 < frac < 2^-52 into the integer obtained by truncation
-  (1e-300 ↦ 0, -(1 - 2^-53) ↦ 0) and saturates integral doubles outside the i64 range
-  (1e300 ↦ 9223372036854775807);
-* integer `+ - *` overflow: the model result is `Outcome.panic` (Rust debug builds panic, release
-  builds wrap) — never a wrong `Int`.
+History: before /repo 6cfc8ab `from_float` truncated every double with 0 < frac < 2^-52 to an
+integer (1e-300 ↦ 0, -(1 - 2^-53) ↦ 0) and saturated integral doubles outside the i64 range
+(1e300 ↦ 9223372036854775807); those witnesses are now regression theorems
+(`C08_from_float_regressions`, `C08_from_string_float_kept`).
+Still open: integer `+ - *` overflow — the model result is `Outcome.panic` (Rust debug builds
+panic, release builds wrap), never a wrong `Int`.
 -/
 import AgProofs.Lemmas.FromFloat
 import AgProofs.Lemmas.Parse
@@ -64,107 +64,77 @@ theorem C08_i64_to_f64_exact_not_full : ¬ C08_i64_to_f64_exact_full := by
   rw [C08_i64_to_f64_inexact_beyond.1, h2] at h1
   exact absurd h1 (by decide)
 
-/-! ### `Value::from_float` -/
+/-! ### `Value::from_float`
 
-/-- complete description on canonical finite doubles: the result is the (saturating, truncating)
-`as i64` cast exactly when the exponent is non-negative or the fractional part is below 2^-52 -/
-theorem C08_from_float_spec {s : Bool} {m : Nat} {e : Int} (hc : Canon (fin s m e)) :
-    fromFloat (fin s m e) =
-      if returnsInt s m e then .int (toI64 (fin s m e)) else .float (fin s m e) :=
-  fromFloat_fin hc
+After the repair (/repo 6cfc8ab) `from_float` returns an `Int` only when the double is exactly
+that integer and lies in the i64 range; every other double stays a `Float`.  The statements that
+were counterexamples before are now positive regression theorems. -/
+
+/-- `from_float` never changes the numeric value — for every double (full statement) -/
+theorem C08_from_float_value (f : F64) : num (fromFloat f) = num (.float f) := num_fromFloat f
+
+/-- it returns an `Int` exactly when the double is an integer of the i64 range, and then that
+integer (for which the saturating cast `as i64` is exact) -/
+theorem C08_from_float_int_iff (f : F64) (i : Int) :
+    fromFloat f = .int i ↔ isI64Valued f = true ∧ toI64 f = i := fromFloat_eq_int_iff f i
+
+/-- complete description -/
+theorem C08_from_float_spec (f : F64) :
+    fromFloat f = if isI64Valued f then .int (toI64 f) else .float f := by
+  cases hI : isI64Valued f
+  · rw [fromFloat_of_not_isI64Valued hI]; simp
+  · simp only [if_true]
+    exact (fromFloat_eq_int_iff f _).2 ⟨hI, rfl⟩
 
 /-- non-finite doubles are kept -/
 theorem C08_from_float_nonfinite :
     fromFloat nan = .float nan ∧ fromFloat (inf false) = .float (inf false) ∧
-    fromFloat (inf true) = .float (inf true) := by
-  refine ⟨?_, ?_, ?_⟩ <;> simp [fromFloat, F64.floor, F64.sub, F64.neg, F64.add, F64.abs, F64.lt, pcmp]
+    fromFloat (inf true) = .float (inf true) := ⟨rfl, rfl, rfl⟩
 
-/-- the full statement: `from_float` preserves the numeric value of every finite double -/
-def C08_from_float_value_full : Prop :=
-  ∀ f : F64, Canon f → f.isFinite = true → num (fromFloat f) = num (.float f)
+/-- a `Float` that comes out is the argument, and it is normalised: not an integer of the i64
+range (so it is never `Equal` to an `Int`, see C05) -/
+theorem C08_from_float_float (f g : F64) (h : fromFloat f = .float g) :
+    g = f ∧ normFloat g = true := fromFloat_eq_float f g h
 
-/-- the decidable condition under which it does: `f` is an integer inside the i64 range, or it is
-not an integer and its fractional part `f - floor f` is at least 2^-52 -/
-def fromFloatOk : F64 → Bool
-  | fin s m e => if fractNonzero (fin s m e) then !fracSmall s m e else inI64 (truncInt s m e)
-  | _ => true
-
-/-- the exact condition (both directions) -/
-theorem C08_from_float_value_iff {s : Bool} {m : Nat} {e : Int} (hc : Canon (fin s m e)) :
-    num (fromFloat (fin s m e)) = num (.float (fin s m e)) ↔ fromFloatOk (fin s m e) = true := by
-  rw [fromFloat_value_iff hc]
-  unfold fromFloatOk
-  by_cases h : fractNonzero (fin s m e) = true <;> simp [h]
-
-theorem C08_from_float_value_partial (f : F64) (hc : Canon f) (hok : fromFloatOk f = true) :
-    num (fromFloat f) = num (.float f) := by
-  cases f with
-  | nan => rw [C08_from_float_nonfinite.1]
-  | inf b => cases b <;> simp [C08_from_float_nonfinite]
-  | fin s m e => exact (C08_from_float_value_iff hc).2 hok
-
-/-- non-vacuity: integers, halves, values just above 2^-52, -2^63, negative tiny values -/
-example : fromFloatOk (fin false two52 (-52)) ∧ fromFloatOk (fin false two52 (-53)) ∧
-    fromFloatOk (fin false 6755399441055744 (-51)) ∧ fromFloatOk epsilon ∧
-    fromFloatOk (fin true two52 11) ∧ fromFloatOk (fin true two52 (-112)) ∧
-    fromFloatOk (fin false 0 eMin) := by decide +kernel
-
-/-- counterexamples, each a canonical finite double -/
+/-- the former corruption witnesses -/
 def tiny : F64 := fin false two52 (-112)                  -- 2^-60
 def belowOne : F64 := fin true (two53 - 1) (-53)          -- -(1 - 2^-53)
 def twoTo63 : F64 := fin false two52 11                   -- 2^63
 def tenToMinus300 : F64 := fin false 6032057205060441 (-1049)
 def tenTo300 : F64 := fin false 6724873095247260 944
 
-theorem C08_from_float_counterexamples :
-    fromFloat tiny = .int 0 ∧ fromFloat belowOne = .int 0 ∧
-    fromFloat twoTo63 = .int 9223372036854775807 ∧
-    fromFloat tenToMinus300 = .int 0 ∧ fromFloat tenTo300 = .int 9223372036854775807 := by
-  have c1 : Canon tiny := by unfold tiny; rw [canon_fin]; decide
-  have c2 : Canon belowOne := by unfold belowOne; rw [canon_fin]; decide
-  have c3 : Canon twoTo63 := by unfold twoTo63; rw [canon_fin]; decide
-  have c4 : Canon tenToMinus300 := by unfold tenToMinus300; rw [canon_fin]; decide
-  have c5 : Canon tenTo300 := by unfold tenTo300; rw [canon_fin]; decide
-  refine ⟨?_, ?_, ?_, ?_, ?_⟩
-  · have h : returnsInt false two52 (-112) = true := by decide +kernel
-    have t : toI64 tiny = 0 := by decide +kernel
-    unfold tiny at c1 t ⊢; rw [fromFloat_fin c1, h, if_pos rfl, t]
-  · have h : returnsInt true (two53 - 1) (-53) = true := by decide +kernel
-    have t : toI64 belowOne = 0 := by decide +kernel
-    unfold belowOne at c2 t ⊢; rw [fromFloat_fin c2, h, if_pos rfl, t]
-  · have h : returnsInt false two52 11 = true := by decide +kernel
-    have t : toI64 twoTo63 = 9223372036854775807 := by decide +kernel
-    unfold twoTo63 at c3 t ⊢; rw [fromFloat_fin c3, h, if_pos rfl, t]
-  · have h : returnsInt false 6032057205060441 (-1049) = true := by decide +kernel
-    have t : toI64 tenToMinus300 = 0 := by decide +kernel
-    unfold tenToMinus300 at c4 t ⊢; rw [fromFloat_fin c4, h, if_pos rfl, t]
-  · have h : returnsInt false 6724873095247260 944 = true := by decide +kernel
-    have t : toI64 tenTo300 = 9223372036854775807 := by decide +kernel
-    unfold tenTo300 at c5 t ⊢; rw [fromFloat_fin c5, h, if_pos rfl, t]
+/-- regression: none of them is turned into an integer any more, and the boundary cases
+-2^63 (in range) and 1.0 still are -/
+theorem C08_from_float_regressions :
+    fromFloat tiny = .float tiny ∧ fromFloat belowOne = .float belowOne ∧
+    fromFloat twoTo63 = .float twoTo63 ∧ fromFloat tenToMinus300 = .float tenToMinus300 ∧
+    fromFloat tenTo300 = .float tenTo300 ∧
+    fromFloat (fin true two52 11) = .int (-9223372036854775808) ∧
+    fromFloat (fin false two52 (-52)) = .int 1 ∧ fromFloat (fin true 0 eMin) = .int 0 := by
+  refine ⟨?_, ?_, ?_, ?_, ?_, ?_, ?_, ?_⟩
+  · exact fromFloat_of_not_isI64Valued (by decide +kernel)
+  · exact fromFloat_of_not_isI64Valued (by decide +kernel)
+  · exact fromFloat_of_not_isI64Valued (by decide +kernel)
+  · exact fromFloat_of_not_isI64Valued (by decide +kernel)
+  · exact fromFloat_of_not_isI64Valued (by decide +kernel)
+  · rw [fromFloat_of_isI64Valued (by decide +kernel)]; exact congrArg Value.int (by decide +kernel)
+  · rw [fromFloat_of_isI64Valued (by decide +kernel)]; exact congrArg Value.int (by decide +kernel)
+  · rw [fromFloat_of_isI64Valued (by decide +kernel)]; exact congrArg Value.int (by decide +kernel)
 
-theorem C08_from_float_value_not_full : ¬ C08_from_float_value_full := by
-  intro h
-  have := h tiny (by unfold tiny; rw [canon_fin]; decide) rfl
-  rw [C08_from_float_counterexamples.1] at this
-  revert this
-  unfold tiny
-  decide +kernel
-
-/-- the corrupting inputs are reachable from text: `from_string "1e-300"` is the integer 0 and
-`from_string "1e300"` is i64::MAX -/
-theorem C08_from_string_float_corrupted :
-    fromString "1e-300" = .int 0 ∧ fromString "1e300" = .int 9223372036854775807 := by
+/-- regression from text: `from_string "1e-300"` and `"1e300"` stay the correctly rounded doubles -/
+theorem C08_from_string_float_kept :
+    fromString "1e-300" = .float tenToMinus300 ∧ fromString "1e300" = .float tenTo300 := by
   constructor
   · have h1 : Text.trim ['1', 'e', '-', '3', '0', '0'] = ['1', 'e', '-', '3', '0', '0'] := by
       decide
     have h2 : parseI64 ['1', 'e', '-', '3', '0', '0'] = Option.none := by decide
     have h3 : parseF64 ['1', 'e', '-', '3', '0', '0'] = some tenToMinus300 := by decide +kernel
-    have hf := C08_from_float_counterexamples.2.2.2.1
+    have hf := C08_from_float_regressions.2.2.2.1
     simp [fromString, h1, h2, h3, hf]
   · have h1 : Text.trim ['1', 'e', '3', '0', '0'] = ['1', 'e', '3', '0', '0'] := by decide
     have h2 : parseI64 ['1', 'e', '3', '0', '0'] = Option.none := by decide
     have h3 : parseF64 ['1', 'e', '3', '0', '0'] = some tenTo300 := by decide +kernel
-    have hf := C08_from_float_counterexamples.2.2.2.2
+    have hf := C08_from_float_regressions.2.2.2.2.1
     simp [fromString, h1, h2, h3, hf]
 
 /-! ### `Value::from_string` / `str::parse::<i64>` on integer literals -/
@@ -201,29 +171,43 @@ theorem C08_parse_i64_range (t : List Char) (v : Int) (hl : IntLit t v) :
 
 /-! ### integer arithmetic never wraps
 
-`Int ∘ Int` for `+ - *` is the exact result when it fits i64 and `Outcome.panic` otherwise —
-never a wrong integer.  The panic outcome IS the finding: the Rust code uses unchecked `+ - *`
-(src/data.rs:182/197/211): debug builds panic, release builds wrap silently. -/
+After the repair (/repo 332a7be) `Int ∘ Int` for `+ - *` is the exact integer whenever it fits i64
+(`checked_*`), and otherwise the result of the same operation on doubles, passed through
+`from_float` — a rounded value of the right magnitude, never a wrapped one and never a panic. -/
 
 theorem C08_int_ops_no_wrap (a b : Int) :
     (Value.add (.int a) (.int b) =
-      if inI64 (a + b) then .ok (.int (a + b)) else .panic "data.rs:182 i64 add") ∧
+      .ok (if inI64 (a + b) then .int (a + b)
+           else fromFloat (F64.add (ofInt a) (ofInt b)))) ∧
     (Value.sub (.int a) (.int b) =
-      if inI64 (a - b) then .ok (.int (a - b)) else .panic "data.rs:197 i64 sub") ∧
+      .ok (if inI64 (a - b) then .int (a - b)
+           else fromFloat (F64.sub (ofInt a) (ofInt b)))) ∧
     (Value.mul (.int a) (.int b) =
-      if inI64 (a * b) then .ok (.int (a * b)) else .panic "data.rs:211 i64 mul") := by
-  simp [Value.add, Value.sub, Value.mul, mkInt]
+      .ok (if inI64 (a * b) then .int (a * b)
+           else fromFloat (F64.mul (ofInt a) (ofInt b)))) := by
+  simp [Value.add, Value.sub, Value.mul, intOrFloat]
 
-/-- hence: whenever an integer operation returns a value, it is the exact mathematical result -/
-theorem C08_int_ops_exact (a b : Int) (v : Value) :
-    (Value.add (.int a) (.int b) = .ok v → v = .int (a + b)) ∧
-    (Value.sub (.int a) (.int b) = .ok v → v = .int (a - b)) ∧
-    (Value.mul (.int a) (.int b) = .ok v → v = .int (a * b)) := by
+/-- hence: whenever the mathematical result fits i64, the operation returns exactly it -/
+theorem C08_int_ops_exact (a b : Int) :
+    (inI64 (a + b) = true → Value.add (.int a) (.int b) = .ok (.int (a + b))) ∧
+    (inI64 (a - b) = true → Value.sub (.int a) (.int b) = .ok (.int (a - b))) ∧
+    (inI64 (a * b) = true → Value.mul (.int a) (.int b) = .ok (.int (a * b))) := by
   obtain ⟨h1, h2, h3⟩ := C08_int_ops_no_wrap a b
   rw [h1, h2, h3]
-  refine ⟨?_, ?_, ?_⟩ <;> (split <;> simp_all)
+  refine ⟨?_, ?_, ?_⟩ <;> (intro h; rw [if_pos h])
 
-example : Value.add (.int 9223372036854775807) (.int 1) = .panic "data.rs:182 i64 add" := by
+/-- they never panic and never fail -/
+theorem C08_int_ops_total (a b : Int) :
+    (Value.add (.int a) (.int b)).isOk = true ∧ (Value.sub (.int a) (.int b)).isOk = true ∧
+    (Value.mul (.int a) (.int b)).isOk = true := by
+  obtain ⟨h1, h2, h3⟩ := C08_int_ops_no_wrap a b
+  rw [h1, h2, h3]; exact ⟨rfl, rfl, rfl⟩
+
+/-- regression for the old overflow witness: i64::MAX + 1 is the double 2^63, not a panic and not
+i64::MIN -/
+example : Value.add (.int 9223372036854775807) (.int 1) = .ok (.float twoTo63) := by
   rw [(C08_int_ops_no_wrap _ _).1, if_neg (by decide)]
+  have h : F64.add (ofInt 9223372036854775807) (ofInt 1) = twoTo63 := by decide +kernel
+  rw [h, C08_from_float_regressions.2.2.1]
 
 end Ag.C08
